@@ -616,6 +616,28 @@ pub fn vhist_campaign<K: VKind>(prop: &str, seed: u64, cases: u32, checks: Check
     }
 }
 
+/// replay under several cache capacities (C06): every variant must pass and agree
+pub fn vreplay_variants<K: VKind>(case: &Value, checks: Checks, cache_variants: &[usize]) -> Result<CaseStats, String> {
+    let cfg: VCfg = serde_json::from_value(case["cfg"].clone()).map_err(|e| format!("bad replay cfg: {e}"))?;
+    let ops: Vec<VOp> = serde_json::from_value(case["ops"].clone()).map_err(|e| format!("bad replay ops: {e}"))?;
+    let c = VCase { cfg, ops };
+    let mut first: Option<CaseStats> = None;
+    for cap in cache_variants {
+        let mut cc = c.clone();
+        cc.cfg.cache_cap = *cap;
+        let s = vrun_case_isolated::<K>(&cc, checks).map_err(|m| format!("{m} [cache={cap}]"))?;
+        match &first {
+            None => first = Some(s),
+            Some(f) => {
+                if f.digest != s.digest {
+                    return Err(format!("cache-dependent: results differ between cache={} and cache={cap}", cache_variants[0]));
+                }
+            }
+        }
+    }
+    Ok(first.unwrap_or_default())
+}
+
 pub fn vreplay<K: VKind>(case: &Value, checks: Checks) -> Result<CaseStats, String> {
     let cfg: VCfg = serde_json::from_value(case["cfg"].clone()).map_err(|e| format!("bad replay cfg: {e}"))?;
     let ops: Vec<VOp> = serde_json::from_value(case["ops"].clone()).map_err(|e| format!("bad replay ops: {e}"))?;
